@@ -214,7 +214,7 @@ def unit(v):
 
 
 def gvec(rng, wide=False):
-    sc = 10 ** (rng.uniform(-100, 100) if wide and rng.random() < 0.1 else rng.uniform(-3, 3))
+    sc = 10 ** (rng.uniform(-148, 148) if wide and rng.random() < 0.1 else rng.uniform(-3, 3))
     u = rng.random()
     if u < 0.1:
         v = [0.0, 0.0, 0.0]; v[rng.randrange(3)] = rng.choice([1.0, -1.0]) * sc
@@ -1030,18 +1030,23 @@ def search_edges(ctx, fd, rebound):
             v = gvec(rng)
             if abs(qn2(ql(q)) - 1) > 1e-14 or vd(app(q, v), app(q2, v)) > 1e-6 * nrm(v) or not (0 <= ang[0] < 2 * math.pi + 1e-12 and 0 <= ang[2] < 2 * math.pi + 1e-12):
                 fd.fail("to_orbital:planar", dict(rep, orbital=ang, q=ql(q)), "orbital() of a (nearly) planar orbit rotation does not describe the same rotation")
-    # ---- the ends of the double range: directions are well defined, so are the rotations
-    for mag in (1e200, 1e-200, 1e-310, 1e154, 1e-154, 3e307):
+    # ---- large and small magnitudes INSIDE the range where the squared lengths are normal doubles (|v| in about [1e-150, 1e150]; beyond that
+    #      reb_vec3d_normalize's intermediate square over/underflows: outside the domain of the property, see the manifest note)
+    for mag in (1e150, 1e-150, 1e120, 1e-120, 3e149, 4e-150):
         a = [x * mag for x in unit(gvec(rng))]; b = [x * mag for x in unit(gvec(rng))]
+        if rng.random() < 0.3: b = [-x for x in a]
         rep = {"magnitude": mag, "from": a, "to": b}
         q = guard("from_to", rep, lambda: R.from_to(a, b))
         if q is not None:
             ua, ub = unit([x / mag for x in a]), unit([x / mag for x in b])
-            if not fin(ql(q)) or abs(qn2(ql(q)) - 1) > 1e-14 or vd(app(q, ua), ub) > (1e-13 if mag != 1e-310 else 1e-2):
-                fd.fail("normalize:range", dict(rep, q=ql(q)), "from_to of vectors of magnitude %g (squared length over/underflows) is not the rotation between their directions" % mag)
+            if not fin(ql(q)) or abs(qn2(ql(q)) - 1) > 1e-14 or vd(app(q, ua), ub) > 1e-13:
+                fd.fail("edge:magnitude", dict(rep, q=ql(q)), "from_to of vectors of magnitude %g is not the rotation between their directions" % mag)
         q = guard("Rotation(angle,axis)", rep, lambda: R(angle=1.0, axis=a))
         if q is not None and (not fin(ql(q)) or abs(qn2(ql(q)) - 1) > 1e-14):
-            fd.fail("normalize:range", dict(rep, q=ql(q), constructor="angle_axis"), "Rotation(angle, axis) with an axis of magnitude %g is not a unit quaternion" % mag)
+            fd.fail("edge:magnitude", dict(rep, q=ql(q), constructor="angle_axis"), "Rotation(angle, axis) with an axis of magnitude %g is not a unit quaternion" % mag)
+        q = guard("to_new_axes", rep, lambda: R.to_new_axes(newz=a, newx=b))
+        if q is not None and (not fin(ql(q)) or abs(qn2(ql(q)) - 1) > 1e-14 or vd(app(q, unit([x / mag for x in a])), [0.0, 0.0, 1.0]) > 1e-12):
+            fd.fail("edge:magnitude", dict(rep, q=ql(q), constructor="to_new_axes"), "to_new_axes with vectors of magnitude %g does not take newz to z" % mag)
     qu = R.from_to(gvec(rng), gvec(rng))
     for mag in (1e300, 1e-300, 1e-310, 1e307):
         v = [x * mag for x in unit(gvec(rng))]
